@@ -19,7 +19,7 @@ A valid stream (the protocol run_mapping follows: writes only to handed-out loca
 (directories / missing files / files as parents given to add_file, unlisted queries, tmp_dir that is no
 directory, the environment writing anywhere, adding a handed-out location itself) are generated.
  (c) THE REAL CALLER: the life of the FileTracker of a real run_mapping is recorded (real_life) and the hypotheses of the
-     theorems (Tracker.life_premise, tag 1954) are evaluated on it: class tracker-premise-false-on-real-run."""
+     theorems (Tracker.life_premise_ow, tag 1954) are evaluated on it (first run, second run into the same output paths, obsm run): class tracker-premise-false-on-real-run."""
 import os
 import pathlib
 import shutil
@@ -631,11 +631,17 @@ WRITE_KINDS = ('Create', 'OpenW')
 
 
 def real_life(ctx, k):
-    """One real run_mapping (tmp_dir given, obsm_key unset) in a child under strace, with the methods of FileTracker
-    wrapped harness-side (fstrace._install_tracker_recorder): the calls _run_mapping makes on its tracker and what the
-    ENVIRONMENT (the rest of the pipeline, all its processes) writes while the tracker lives are recorded; the hypotheses
-    of the tracker theorems of Props/C19.v (Tracker.life_premise, tag 1954) are evaluated on that life, the calls are
-    replayed through the model (tag 1951), and the conclusions are checked on the snapshots."""
+    """THREE real run_mapping's (tmp_dir given) in ONE sandbox, one after the other in a child under strace, with the
+    methods of FileTracker wrapped harness-side (fstrace._install_tracker_recorder):
+      first    obsm_key unset, fresh output paths;
+      second   the same job again: the SAME output paths -- f0 of this life already holds the CSV / JSON / HDF5 / log of
+               the first run, and the CSV is rewritten while the tracker lives (audit 4, A1a);
+      obsm     the same output paths again and obsm_key set: append_to_obsm opens the query -- a path handed to the
+               tracker -- read-write while the tracker lives (audit 4, A1b).
+    For each life the calls _run_mapping makes on its tracker and what the ENVIRONMENT (the rest of the pipeline, all its
+    processes) writes while the tracker lives are recorded; the hypotheses of the tracker theorems of Props/C19.v
+    (Tracker.life_premise_ow, tag 1954; ow = [] for first and second, [query] for obsm) are evaluated on that life, the
+    calls are replayed through the model (tag 1951), and the conclusions are checked on the snapshots."""
     from harness import fstrace
     from harness.props import c19
     rng = ctx.rng
@@ -649,12 +655,24 @@ def real_life(ctx, k):
     (sb / 'tmp' / 'file_tracker_stale000' / 'query_old.h5ad').write_bytes(b'stale')
     (sb / 'tmp' / 'query_marker_stale.h5').write_bytes(b'stale marker cache')
     (sb / 'out' / 'result_old.json').write_text('{}')
-    job = c19.mapping_job(f'tracker-life-{k}', sb, src, f'tl{k}', n_processors=rng.choice([1, 2, 3]),
-                          chunk_size=rng.choice([2, 3, 4]), seed=rng.randrange(10 ** 6))
-    job['record_tracker'] = True
-    rec = fstrace.run_children([[job]], ctx.scratch / 'trace' / f'trackerlife{k}')[0][0]
+    kw = dict(n_processors=rng.choice([1, 2, 3]), chunk_size=rng.choice([2, 3, 4]), seed=rng.randrange(10 ** 6))
+    jobs = []
+    for which, obsm in (('first', None), ('second', None), ('obsm', 'ctm_verif')):
+        job = c19.mapping_job(f'tracker-life-{k}-{which}', sb, src, f'tl{k}', obsm_key=obsm, **kw)
+        job['record_tracker'] = True
+        jobs.append((which, job))
+    recs = fstrace.run_children([[j for _, j in jobs]], ctx.scratch / 'trace' / f'trackerlife{k}')[0]
+    for (which, job), rec in zip(jobs, recs):
+        cfg = job['args']['config']
+        real_life_eval(ctx, k, which, rec, sb,
+                       query=str(pathlib.Path(cfg['query_path']).resolve()),
+                       csv=str(pathlib.Path(cfg['csv_result_path']).resolve()))
+    shutil.rmtree(base, ignore_errors=True)
+
+
+def real_life_eval(ctx, k, which, rec, sb, query, csv):
     res = rec['res']
-    desc = {'kind': 'FileTracker life of a real run_mapping', 'run_ok': res.get('ok'), 'error': res.get('error')}
+    desc = {'kind': 'FileTracker life of a real run_mapping', 'which': which, 'run_ok': res.get('ok'), 'error': res.get('error')}
     calls = res.get('tracker_life') or []
     marks = {w: (t, pid) for w, t, pid in rec.get('marks', [])}
     lives = {}
@@ -662,7 +680,7 @@ def real_life(ctx, k):
         lives.setdefault(c['obj'], []).append(c)
     whole = [cs for cs in lives.values() if cs[0]['kind'] == '__init__' and cs[-1]['kind'] == '__del__'
              and all(f"tk{c['n']}a" in marks and f"tk{c['n']}b" in marks for c in cs)]
-    ctx.dist('tracker.real-run_mapping.lives-recorded', len(whole))
+    ctx.dist('tracker.real-run_mapping.lives-recorded', f'{which}: {len(whole)}')
     if not res.get('ok') or len(whole) != 1:
         d = dict(desc, **{'class': 'corr:c19_tracker.real-life-not-recorded', 'calls': [c['kind'] for c in calls]})
         ctx.violation('the traced run_mapping failed or the life of its FileTracker was not recorded '
@@ -741,8 +759,23 @@ def real_life(ctx, k):
     timeline.sort(key=lambda x: (x[0], x[1]))
     mid = [x[2] for x in timeline]
     ops = [[0, [dpar], n0]] + mid + [[5]]
-    r_prem, r_ops = ctx.model([(1954, [f0, dpar, n0, mid]), (1951, [f0, ops])])
+    # ow: the paths handed to the tracker that the caller overwrites BY DESIGN: the query when obsm_key is set
+    # (append_to_obsm(h5ad_path=config['query_path']): the original path, not the tracker's copy)
+    ow = [enc(rel(query))] if which == 'obsm' else []
+    r_prem, r_prem0, r_ops = ctx.model([(1954, [f0, dpar, n0, mid, ow]), (1954, [f0, dpar, n0, mid]), (1951, [f0, ops])])
     W = {rel(pth) for _, pth in writes}
+    # the scenario must be the one it is meant to be (otherwise the evaluation of the premise would be idle)
+    added_paths = {c['path'] for c in cs if c['kind'] == 'add_file'}
+    copies = {c['location'] for c in cs if c['kind'] == 'add_file' and c.get('location')}
+    if which in ('second', 'obsm') and not (csv in snap0 and snap0[csv] != 'dir' and rel(csv) in W):
+        ctx.violation(f'{which} run: the CSV of the earlier run was expected in f0 and among the environment writes',
+                      dict(desc, **{'class': 'corr:c19_tracker.real-life-scenario'}), no_input=True)
+    if which == 'obsm' and not (query in added_paths and rel(query) in W and not any(rel(x) in W for x in copies)):
+        ctx.violation('obsm run: append_to_obsm was expected to write the ORIGINAL query path (handed to the tracker) and '
+                      'not the tracker copy', dict(desc, **{'class': 'corr:c19_tracker.real-life-scenario'}), no_input=True)
+    if which != 'obsm' and any(rel(x) in W for x in added_paths):
+        ctx.violation(f'{which} run (obsm_key unset): the environment wrote a path handed to the tracker',
+                      dict(desc, **{'class': 'tracker-input-written-by-caller'}))
     desc.update({'tmp_dir': '/'.join(T[:-1]), 'tracker_dir': '/'.join(T),
                  'calls': [[c['kind'], '/'.join(rel(c['path'])) if 'path' in c else None, c.get('input_only')] for c in cs],
                  'environment_writes': sorted('/'.join(w) for w in W)[:40],
@@ -750,15 +783,25 @@ def real_life(ctx, k):
     if k == 0:
         ctx.sample(desc, limit=len(ctx.samples) + 1)
     sib = [w for w in W if w[:-1] == T[:-1]]
-    ctx.dist('tracker.real-run_mapping.environment-writes', f'{min(len(W), 20)} paths, {len(sib)} sibling(s) of the tracker directory')
-    ctx.count(('tracker-real-life', len(cs), len(W)), nontrivial=(len(cs) >= 4 and len(W) >= 2))
+    ctx.dist('tracker.real-run_mapping.environment-writes', f'{which}: {min(len(W), 20)} paths, {len(sib)} sibling(s) of the tracker directory')
+    ctx.count(('tracker-real-life', which, len(cs), len(W)), nontrivial=(len(cs) >= 4 and len(W) >= 2))
     # (a) the premise of the theorems, evaluated by the model on the recorded life
     if r_prem[0] != 0:
         ctx.violation(f'model answered {str(r_prem)[:200]}', dict(desc, **{'class': 'corr:Tracker.run_life_premise'}), no_input=True)
         return
-    premise, strict, n_w, n_req = r_prem[1]
-    ctx.dist('tracker.real-run_mapping.life_premise', 'holds' if premise == 1 else 'FALSE')
+    premise, strict, n_w, n_req, old_clause = r_prem[1]
+    ctx.dist('tracker.real-run_mapping.life_premise', f'{which}: ' + ('holds' if premise == 1 else 'FALSE'))
     ctx.dist('tracker.real-run_mapping.strict-protocol-writes_ok', 'holds' if strict == 1 else 'violated (expected: marker cache, buffers, CSV)')
+    # the clause audit 4 (A1) found too strong -- "no file of f0 is written" -- is reported, not required: it is
+    # expected to hold on the first run only
+    ctx.dist('tracker.real-run_mapping.old-clause-no-file-of-f0-written', f'{which}: ' + ('holds' if old_clause == 1 else 'false'))
+    if which == 'obsm' and (r_prem0[0] != 0 or r_prem0[1][0] != 0):
+        ctx.violation('obsm run: life_premise WITHOUT the by-design exemption of the query was expected to be false '
+                      f'(the query is written); model answered {str(r_prem0)[:120]}',
+                      dict(desc, **{'class': 'corr:Tracker.run_life_premise'}), no_input=True)
+    if which != 'obsm' and r_prem0 != r_prem:
+        ctx.violation('life_premise with ow = [] and the 4-argument form of tag 1954 differ',
+                      dict(desc, **{'class': 'corr:Tracker.run_life_premise'}), no_input=True)
     if premise != 1:
         ctx.violation('the hypotheses of the tracker theorems (Tracker.life_premise) are FALSE on the life of the FileTracker '
                       'of a real run_mapping: the theorems do not apply to the real caller',
@@ -811,7 +854,6 @@ def real_life(ctx, k):
         if not inside_t and pth not in dele['to_write_out'] and after.get(pth) != v:
             ctx.violation(f'{"/".join(rel(pth))} outside the tracker directory changed during del',
                           dict(desc, **{'class': 'tracker-file-not-requested'}))
-    shutil.rmtree(base, ignore_errors=True)
 
 
 def run_part(ctx):
@@ -826,14 +868,16 @@ def run_part(ctx):
         'interpreter emulated; one tracker at a time (codes 6/7 of the model have no counterpart in the code); the '
         'branch add_file(path == the name mkstemp draws) is impossible (the drawn name is longer than the path name) and '
         'is code 5 of the model; log=None',
-        'FileTracker part, life of the real caller: one real run_mapping per case (tmp_dir given, obsm_key unset: with '
-        'obsm_key the query file -- an input -- is written by design) runs in a child under strace with the methods of '
-        'FileTracker wrapped harness-side; the environment writes are the successful open(O_WRONLY|O_RDWR / O_CREAT / '
+        'FileTracker part, life of the real caller: three real run_mapping per case in one sandbox (tmp_dir given): a first '
+        'run, a second run into the SAME output paths (the CSV of the first -- a file of f0 -- is rewritten while the '
+        'tracker lives) and a run with obsm_key set (append_to_obsm writes the original query path, which was handed to '
+        'the tracker: exempted from the premise as ow = [query], Tracker.life_premise_ow); they run in a child under '
+        'strace with the methods of FileTracker wrapped harness-side; the environment writes are the successful open(O_WRONLY|O_RDWR / O_CREAT / '
         'O_TRUNC) and rename destinations of ALL processes of the run between the return of the constructor and the entry '
         'of __del__, except what the main process does inside a tracker call; each written path is given to the model '
         'once (first write); the model environment has no mkdir/unlink: directories the pipeline makes while the tracker '
         'lives are not model operations (a model write below one is refused with code 8 and not compared), which does '
-        'not affect Tracker.life_premise (it reads f0, the calls and the written paths only)',
+        'not affect Tracker.life_premise_ow (it reads f0, the calls and the written paths only)',
     ]
     (ctx.scratch / 'tracker').mkdir(parents=True, exist_ok=True)
     tracker_cases(ctx)
